@@ -213,6 +213,27 @@ def _e4_nd(prop, q, t):
 
 for _p in ('C01', 'C06', 'C11', 'C03'):
     CHECKS[_p]['stages'].append(_rt_nd(_p, 1000, 30000))
+
+
+# atomic-step variant (hx/tsan_hooks.c): every atomic operation of the core is a scheduling point, so a context switch can fall
+# between two atomic operations where the core has no hook (a read-modify-write split into load + store, two flag updates swapped)
+def _rt_atomic(prop, q, t):
+    return stage('h_runtime', _RT_HX + ['tsan_hooks.c'], name='h_runtime(DET, atomic steps)', variant='core_atomics',
+                 quick=dict(cases=q, min_nontrivial=50, time_budget=70, case_timeout=60),
+                 thorough=dict(cases=t, min_nontrivial=500, time_budget=900, case_timeout=300),
+                 env=dict(RSV_FREE=0, RSV_ATOMIC_STEPS=1))
+
+
+for _p in ('C06', 'C01', 'C04', 'C08'):
+    CHECKS[_p]['stages'].append(_rt_atomic(_p, 1500, 40000))
+CHECKS['C15']['stages'].append(stage('h_queue', ['h_queue.c', 'tsan_hooks.c'], name='h_queue(DET, atomic steps)', variant='core_atomics',
+                                     quick=dict(cases=8000, min_nontrivial=500, time_budget=60, case_timeout=60),
+                                     thorough=dict(cases=160000, min_nontrivial=5000, time_budget=600, case_timeout=60),
+                                     env=dict(RSV_FREE=0, RSV_ATOMIC_STEPS=1)))
+CHECKS['C17']['stages'].append(stage('h_barrier', ['h_barrier.c', 'tsan_hooks.c'], name='h_barrier(DET, atomic steps)', variant='core_atomics',
+                                     quick=dict(cases=8000, min_nontrivial=500, time_budget=60, case_timeout=60),
+                                     thorough=dict(cases=160000, min_nontrivial=5000, time_budget=600, case_timeout=60),
+                                     env=dict(RSV_FREE=0, RSV_ATOMIC_STEPS=1)))
 for _p in ('C02', 'C06', 'C11'):
     CHECKS[_p]['stages'].append(_e4_nd(_p, 800, 24000))
 
